@@ -16,6 +16,13 @@ def impl():
 # call = ("layer", name) | ("str", module) | ("list", [modules]) | ("regex", pattern) | ("with_layer",)
 
 
+def chain(nxt, name):
+    """the fluent API: the next call is made on what the previous call returned"""
+    if nxt is None:
+        raise rules.FluentChainBroken(f"{name}() returned None: the call chain cannot be continued")
+    return nxt
+
+
 def run_la_impl(hist):
     """-> (number of calls accepted before the first rejection, error family or None, {layer: [identifiers]} in order)"""
     LA, _ = impl()
@@ -25,13 +32,13 @@ def run_la_impl(hist):
     for c in hist:
         try:
             if c[0] == "layer":
-                a.layer(c[1])
+                a = chain(a.layer(c[1]), "layer")
             elif c[0] == "str":
-                a.containing_modules(c[1])
+                a = chain(a.containing_modules(c[1]), "containing_modules")
             elif c[0] == "list":
-                a.containing_modules(list(c[1]))
+                a = chain(a.containing_modules(list(c[1])), "containing_modules")
             elif c[0] == "regex":
-                a.have_modules_with_names_matching(c[1])
+                a = chain(a.have_modules_with_names_matching(c[1]), "have_modules_with_names_matching")
             elif c[0] == "peek":
                 # someone looks at the architecture while it is being defined: a LayerRule is based on it, its
                 # mapping and text are read.  Observation only: the definition must go on exactly as without it.
@@ -43,7 +50,7 @@ def run_la_impl(hist):
                 except Exception:  # noqa: BLE001
                     pass
             else:
-                a.with_layer()
+                a = chain(a.with_layer(), "with_layer")
         except Exception as e:  # noqa: BLE001
             fam = rules.classify_exception(e)
             break
@@ -68,13 +75,13 @@ def build_arch(layers):
     LA, _ = impl()
     a = LA()
     for name, kind, val in layers:
-        a.layer(name)
+        a = chain(a.layer(name), "layer")
         if kind == "regex":
-            a.have_modules_with_names_matching(val)
+            a = chain(a.have_modules_with_names_matching(val), "have_modules_with_names_matching")
         elif kind == "str":
-            a.containing_modules(val)
+            a = chain(a.containing_modules(val), "containing_modules")
         else:
-            a.containing_modules(list(val))
+            a = chain(a.containing_modules(list(val)), "containing_modules")
     return a
 
 
@@ -189,18 +196,18 @@ def run_lr_impl(hist, arch_eval, shared_layered_arch=None):
     try:
         for c in hist:
             if c[0] == "based_on":
-                r.based_on(shared_layered_arch if shared_layered_arch is not None else build_arch(c[1]))
+                r = chain(r.based_on(shared_layered_arch if shared_layered_arch is not None else build_arch(c[1])), "based_on")
             elif c[0] == "named":
-                r.are_named(c[1])
+                r = chain(r.are_named(c[1]), "are_named")
             elif c[0] == "named_list":
-                r.are_named(list(c[1]))
+                r = chain(r.are_named(list(c[1])), "are_named")
             elif c[0] == "assert_applies":
                 try:
                     r.assert_applies(arch_eval)
                 except BaseException:  # noqa: BLE001  (outcome of the intermediate evaluation is irrelevant here)
                     pass
             else:
-                getattr(r, c[0])()
+                r = chain(getattr(r, c[0])(), c[0])
     except AssertionError as e:
         return ("FAIL", "builder raised AssertionError: " + str(e))
     except Exception as e:  # noqa: BLE001
@@ -214,13 +221,13 @@ def build_lr(hist):
     r = LR()
     for c in hist:
         if c[0] == "based_on":
-            r.based_on(build_arch(c[1]))
+            r = chain(r.based_on(build_arch(c[1])), "based_on")
         elif c[0] == "named":
-            r.are_named(c[1])
+            r = chain(r.are_named(c[1]), "are_named")
         elif c[0] == "named_list":
-            r.are_named(list(c[1]))
+            r = chain(r.are_named(list(c[1])), "are_named")
         elif c[0] != "assert_applies":
-            getattr(r, c[0])()
+            r = chain(getattr(r, c[0])(), c[0])
     return r
 
 
